@@ -22,6 +22,7 @@ FAMILIES = {
     "L": (("{7}", 1), ("{7, 2000, 61, 1000}", 1), 150),
     "N": (("{7}", 1), ("{7, 1000, 2000}", 1), 90),
     "T": (("{7, 61}", 1), ("{7, 61, 2000, 1000}", 1), 7),
+    "PL": (("{7}", 4), ("{7, 61}", 1), 60),                        # pipelined messages: handed-out encodings stay intact
     "R": (("{7}", 1), ("{7}", 1), 100),                           # random deep shapes (RandomElement, TLC -seed)
     "EB": (("{7}", 1), ("{7, 61, 1000, 2000, 3000}", 1), 13),      # switch-originated kinds built through the API (OFSwGen.tla)
 }
